@@ -200,6 +200,7 @@ def cluster_case(draw, max_n=40, max_d=4, entries=ENTRIES, corner=None, min_n=1)
     else:
         case["km"] = _km_cfg(draw, n, entry)
     case["est_life"] = draw(st.sampled_from(EST_LIVES))
+    case["alias"] = draw(st.booleans())          # 'manhattan' may be asked for by its scipy name 'cityblock'
     case["data"] = draw(rc.dataset_sites(shape))
     return case
 
@@ -333,6 +334,9 @@ def execute(case):
     if X.base is not None:
         run.give("X_backing_buffer", X.base)      # strided layout: the gaps between the rows must stay untouched too
     M = rc.library_metric(name)
+    if name == "manhattan" and case.get("alias"):
+        M = "cityblock"
+        run.classes.append("metric_name=cityblock")
     entry = case["entry"]
     cl = run.classes
     cl += ["entry=" + entry, "metric=" + name, "dtype=" + case["data"]["dtype"],
